@@ -91,12 +91,12 @@ Definition is_valid_peer (h : hostinfo) : bool :=
         || (h_id h =? 0) || (h_dc h =? 0) || (h_rack h =? 0)
         || match h_tokens h with None => true | Some [] => true | Some _ => false end).
 
-(* the tail of hostInfoFromMap: host.connectAddress = translate(host.ConnectAddress()) with the identity
-   translator; ConnectAddress() panics when no address is valid (None) *)
+(* the tail of hostInfoFromMap: an error (None) when no address of the row is valid, otherwise
+   host.connectAddress = translate(host.ConnectAddress()) with the identity translator *)
 Definition host_from_row (row : hostinfo) : option hostinfo :=
   if invalid_connect_addr row then None else Some (set_conn row (connect_addr row)).
 
-(* GetHosts: local host first, then the peers that are valid; None = a row made hostInfoFromMap panic *)
+(* GetHosts: local host first, then the peers that are valid; None = hostInfoFromMap returned an error for a row *)
 Fixpoint peers_from_rows (rows : list hostinfo) : option (list hostinfo) :=
   match rows with
   | [] => Some []
@@ -141,18 +141,41 @@ Definition add_if_missing (r : ring) (h : hostinfo) : option (ring * hostinfo * 
                        h, false)
        end.
 
-(* addOrUpdate: the existing object (found under h's id) is updated in place *)
+(* unindexAddrLocked(addr, hostID): drop the entry of the address if it belongs to hostID; the first other
+   host of hostList that has the address takes it over.  [hs] and [hl] are hosts and hostList at the time of
+   the call (hostList entries are looked at through their ids). *)
+Definition shares (hs : zmap hostinfo) (k id id' : Z) : bool :=
+  negb (id' =? id) && match mget id' hs with Some x => n2n_key x =? k | None => false end.
+
+Definition unindex (hs : zmap hostinfo) (hl : list Z) (m : zmap Z) (k id : Z) : zmap Z :=
+  if (match mget k m with Some x => x | None => 0 end) =? id then
+    match find (shares hs k id) hl with
+    | Some id' => mset k id' (mdel k m)
+    | None => mdel k m
+    end
+  else m.
+
+(* addOrUpdate: the existing object (found under h's id) is updated in place; if that moved its
+   node-to-node address the address index follows *)
 Definition add_or_update (r : ring) (h : hostinfo) : option (ring * hostinfo) :=
   match add_if_missing r h with
   | None => None
-  | Some (r', e, true) => let e' := update e h in Some (mkRing (mset (h_id h) e' (hosts r')) (ip2id r') (hlist r'), e')
+  | Some (r', e, true) =>
+      let e' := update e h in
+      let hs' := mset (h_id h) e' (hosts r') in
+      let ips := if negb (n2n_key e' =? n2n_key e) && (h_id e' =? h_id h)
+                 then mset (n2n_key e') (h_id e') (unindex hs' (hlist r') (ip2id r') (n2n_key e) (h_id e'))
+                 else ip2id r' in
+      Some (mkRing hs' ips (hlist r'), e')
   | Some (r', e, false) => Some (r', e)
   end.
 
 (* removeHost *)
 Definition remove_host_ring (r : ring) (id : Z) : ring * bool :=
   match mget id (hosts r) with
-  | Some h => (mkRing (mdel id (hosts r)) (mdel (n2n_key h) (ip2id r)) (remove_first id (hlist r)), true)
+  | Some h =>
+      let hl := remove_first id (hlist r) in
+      (mkRing (mdel id (hosts r)) (unindex (hosts r) hl (ip2id r) (n2n_key h) id) hl, true)
   | None => (r, false)    (* delete(r.hosts, hostID) of an absent key *)
   end.
 
@@ -228,20 +251,24 @@ Definition remove_host (s : sess) (h : hostinfo) : sess :=
          (s_refresh s).
 
 (* outcome of a refresh *)
-Inductive rres := ROk | RErrCannotFind | RErrExists | RPanic.
+Inductive rres := ROk | RErrCannotFind | RErrExists | RErrReport | RPanic.
 
 (* refreshRing's first loop.  [prev] is prevHosts = ring.currentHosts() taken before the loop: same
-   pointers as the ring's, so the "existing" object of an id still in prev is the ring's current one. *)
-Fixpoint refresh_loop (c : cfg) (s : sess) (prev : zmap hostinfo) (hs : list hostinfo) : sess * zmap hostinfo * rres :=
+   pointers as the ring's, so the "existing" object of an id still in prev is the ring's current one.
+   [seen] are the host ids already handled in this refresh: a second report of an id is skipped. *)
+Fixpoint refresh_loop (c : cfg) (s : sess) (prev : zmap hostinfo) (seen : list Z) (hs : list hostinfo)
+  : sess * zmap hostinfo * rres :=
   match hs with
   | [] => (s, prev, ROk)
   | h :: tl =>
-      if negb (accept c h) then refresh_loop c s prev tl
+      if negb (accept c h) then refresh_loop c s prev seen tl
+      else if zmem (h_id h) seen then refresh_loop c s prev seen tl
       else
+        let seen' := h_id h :: seen in
         match add_if_missing (s_ring s) h with
         | None => (s, prev, RPanic)
         | Some (r', _, false) =>
-            refresh_loop c (start_pool_fill (with_ring s r') h) (mdel (h_id h) prev) tl
+            refresh_loop c (start_pool_fill (with_ring s r') h) (mdel (h_id h) prev) seen' tl
         | Some (_, host, true) =>
             match mget (h_id h) prev with
             | None => (s, prev, RErrCannotFind)
@@ -250,14 +277,14 @@ Fixpoint refresh_loop (c : cfg) (s : sess) (prev : zmap hostinfo) (hs : list hos
                 if ip_eqb (h_conn h) (h_conn existing) && ip_eqb (n2n h) (n2n existing) then
                   (* no host IP change: host.update(h) *)
                   let r1 := mkRing (mset (h_id h) (update host h) (hosts (s_ring s))) (ip2id (s_ring s)) (hlist (s_ring s)) in
-                  refresh_loop c (with_ring s r1) (mdel (h_id h) prev) tl
+                  refresh_loop c (with_ring s r1) (mdel (h_id h) prev) seen' tl
                 else
                   let s1 := remove_host s existing in
                   match add_if_missing (s_ring s1) h with
                   | None => (s1, prev, RPanic)
                   | Some (_, _, true) => (s1, prev, RErrExists)
                   | Some (r2, _, false) =>
-                      refresh_loop c (start_pool_fill (with_ring s1 r2) h) (mdel (h_id h) prev) tl
+                      refresh_loop c (start_pool_fill (with_ring s1 r2) h) (mdel (h_id h) prev) seen' tl
                   end
             end
         end
@@ -268,7 +295,7 @@ Definition remove_all (s : sess) (prev : zmap hostinfo) : sess :=
   fold_left (fun s kv => remove_host s (snd kv)) prev s.
 
 Definition refresh (c : cfg) (s : sess) (report : list hostinfo) : sess * rres :=
-  let '(s1, prev, res) := refresh_loop c s (hosts (s_ring s)) report in
+  let '(s1, prev, res) := refresh_loop c s (hosts (s_ring s)) [] report in
   match res with
   | ROk => (remove_all s1 prev, ROk)
   | _ => (s1, res)
@@ -277,7 +304,7 @@ Definition refresh (c : cfg) (s : sess) (report : list hostinfo) : sess * rres :
 (* refresh from what the control node returned for system.local and system.peers *)
 Definition refresh_rows (c : cfg) (s : sess) (local : hostinfo) (rows : list hostinfo) : sess * rres :=
   match get_hosts local rows with
-  | None => (s, RPanic)
+  | None => (s, RErrReport)      (* GetHosts failed: refreshRing returns the error, nothing changes *)
   | Some report => refresh c s report
   end.
 
